@@ -75,7 +75,44 @@ def shapes(tier, seed):
                     add(("mat", node), p, "gen")
                 if d <= 1 and base == X:
                     add(("chain", node, _rename(node)), _double(p), "seq")
+    for f, second in later_pairs():
+        for payload in ("seq", "map"):
+            out.append({"pair": (f, second), "prog": second, "params": {"$k1": [None, None]} if "$k1" in repr((f, second)) else {}, "cons": [],
+                        "payload": payload, "n": 2})
     return out
+
+
+def later_pairs():
+    """(first relation, second relation sharing nodes with it): executing and iterating the second must not change what
+    re-iterating the first one's earlier result yields."""
+    X, Y = ("leaf", "X"), ("leaf", "Y")
+    A, B = ("ref", "a"), ("ref", "b")
+    m1 = ("mat", ("dedup", X), "m1")
+    m2 = ("mat", ("sort", X, ((B, False), (A, True))), "m2")
+    m3 = ("mat", ("sel", X, ("gt", A, ("lit", "$k1"))), "m3")
+    d1 = ("dedup", X)
+    firsts = [m1, m2, m3, d1, X]
+    out = []
+    for f in firsts:
+        for second in (("dedup", ("chain", f, Y)), ("sort", ("chain", f, Y), ((A, True),)), ("dedup", ("chain", Y, f)),
+                       ("sort", f, ((A, False),)), ("dedup", ("proj", f, ("a",))), ("chain", f, f), ("slice", ("sort", f, ((B, True),)), 0, 1)):
+            out.append((f, second))
+    return out
+
+
+def run_pair(first, second, env, payloads):
+    memo = {}
+    r1 = build(first, env, memo)
+    it1 = r1.engine.execute(r1)
+    l1 = [dict(r) for r in it1]
+    r2 = build(second, env, memo)
+    it2 = r2.engine.execute(r2)
+    l2a = [dict(r) for r in it2]
+    l2b = [dict(r) for r in it2]
+    l1b = [dict(r) for r in it1]
+    it1c = r1.engine.execute(r1)
+    l1c = [dict(r) for r in it1c]
+    return l1, l1b, l1c, l2a, l2b
 
 
 def _rename(node):
@@ -194,15 +231,20 @@ def _under_materialization(rel, under=False, acc=None):
 
 
 def _mk_env(shape, valfn, symbolic):
-    from lsst.daf.relation import LeafRelation
+    from lsst.daf.relation import LeafRelation, iteration
 
     env = Env(symbolic=symbolic)
     payloads = {}
-    used = {x for x in ("X", "Y") if f"'{x}'" in repr(shape["prog"])}
+    used = {x for x in ("X", "Y") if f"'{x}'" in repr((shape["prog"], shape.get("pair")))}
     for name in sorted(used):
         cols = LEAVES[name]
         rows = [{env.tags[c]: valfn(name, c, i) for c in cols} for i in range(shape["n"] if name == "X" else 1)]
-        p = _counting_payload(rows, shape["payload"] == "seq")
+        if shape["payload"] == "map":
+            key = tuple(t for t in frozenset(env.tags[c] for c in cols) if t.is_key)
+            p = iteration.RowMapping(key, {i: r for i, r in enumerate(rows)})
+            p.starts = 0
+        else:
+            p = _counting_payload(rows, shape["payload"] == "seq")
         payloads[name] = p
         rel = LeafRelation(env.engines["it1"], frozenset(env.tags[c] for c in cols), p, name=name, min_rows=0,
                            max_rows=None if shape["payload"] == "gen" else len(rows))
@@ -210,7 +252,63 @@ def _mk_env(shape, valfn, symbolic):
     return env, payloads
 
 
+def _rows_equal(a, b):
+    if len(a) != len(b) or any(set(x) != set(y) for x, y in zip(a, b)):
+        return z3.BoolVal(False)
+    return zand(zint(x[t]) == zint(y[t]) for x, y in zip(a, b) for t in x)
+
+
+def run_pair_shape(shape):
+    first, second = shape["pair"]
+
+    def h(ctx):
+        env, payloads = _mk_env(shape, lambda name, c, i: ctx.int(f"{name}.{c}{i}"), True)
+        if shape["payload"] == "map":
+            for name, p in payloads.items():
+                rows = list(p.rows.values())
+                for i in range(len(rows)):
+                    for j in range(i + 1, len(rows)):
+                        ctx.assume(z3.Or(*[zint(rows[i][t]) != zint(rows[j][t]) for t in p.unique_key]))
+        templates.declare(ctx, env, shape["params"], shape["cons"])
+        try:
+            l1, l1b, l1c, l2a, l2b = run_pair(first, second, env, payloads)
+        except Exception as e:  # noqa: BLE001
+            return [("executes", False, {"exc": f"{type(e).__name__}: {e}"[:200]})]
+        return [("earlier result re-iterated after a later execution gives the same rows", _rows_equal(l1, l1b), {}),
+                ("re-executing the first relation gives the same rows", _rows_equal(l1, l1c), {}),
+                ("second result iterated twice gives the same rows", _rows_equal(l2a, l2b), {})]
+
+    res = explore(h, max_paths=3000, wall_s=200)
+    out = res.as_dict()
+    out["shape"] = {"first": fmt(first), "then": fmt(second), "payload": shape["payload"]}
+    out["sample"] = {"first": fmt(first), "then": fmt(second), "payload": shape["payload"], "paths": res.paths}
+    for cx in res.cex[:1]:
+        vals = cx["model"]
+        env, payloads = _mk_env(shape, lambda name, c, i: int(vals.get(f"{name}.{c}{i}", 0)), False)
+        env.bind = templates.bind_concrete(shape["params"], vals)
+        try:
+            l1, l1b, l1c, l2a, l2b = run_pair(first, second, env, payloads)
+            bad = "earlier-result-changed" if l1 != l1b else "re-execution-differs" if l1 != l1c else "rows-differ-between-iterations" if l2a != l2b else None
+        except Exception as e:  # noqa: BLE001
+            bad = f"raises:{type(e).__name__}"
+        if bad is None:
+            out["status"], out["detail"] = "harness-error", f"counterexample does not reproduce: {fmt(first)} then {fmt(second)}"
+            return out
+        out["status"] = VIOLATION
+        out["violations"] = [{"site": f"{'>'.join(ops_of(first))} then {'>'.join(ops_of(second))}/{bad}/{shape['payload']}",
+                              "summary": f"execute {fmt(first)}, then {fmt(second)}: {bad}",
+                              "replay": {"shape": to_jsonable(shape), "vals": vals, "bind": env.bind, "symptom": bad, "pair": True}}]
+        return out
+    if res.inconclusive or not res.complete:
+        out["status"], out["detail"] = INCONCLUSIVE, "; ".join(res.notes)[:100]
+    else:
+        out["status"] = HOLDS
+    return out
+
+
 def run_shape(shape, tier):
+    if shape.get("pair"):
+        return run_pair_shape(shape)
     prog = shape["prog"]
     info = {}
 
@@ -278,6 +376,10 @@ def replay(v):
     r = v["replay"]
     shape = r["shape"]
     shape["prog"] = from_jsonable(shape["prog"])
+    if r.get("pair"):
+        shape["pair"] = tuple(from_jsonable(x) for x in shape["pair"])
+        out = run_pair_shape(shape)
+        return out["status"] == VIOLATION, str(out.get("violations", [{}])[0].get("summary", "agrees"))
     fails, symptom, detail = concrete_check(shape, r["vals"], r["bind"])
     return fails and symptom == r["symptom"], f"{fmt(shape['prog'])}: {symptom} {detail}"
 
